@@ -11,6 +11,7 @@ import (
 	"encoding/json"
 	"fmt"
 	"runtime"
+	"strings"
 	"sync/atomic"
 	"testing"
 	"time"
@@ -180,6 +181,9 @@ func (e *userErr) Error() string {
 // panicStruct is one of the panic value kinds.
 type panicStruct struct{ Exec, Kind, ID, Ord int }
 
+// runtimePanic marks executions whose panic is a genuine runtime.Error.
+type runtimePanic struct{}
+
 type panicErr struct{ exec, kind, id, ord int }
 
 func (e *panicErr) Error() string {
@@ -302,7 +306,9 @@ func (x *execRun) panicVal(kind, id, ord int) any {
 		}
 	}
 	var v any
-	switch (x.d.PanicKind + id + ord) % 4 {
+	switch (x.d.PanicKind + id + ord) % 5 {
+	case 4:
+		v = runtimePanic{} // marker: the body provokes a real runtime error (write to a nil map)
 	case 0:
 		v = fmt.Sprintf("boom exec=%d kind=%d id=%d ord=%d", x.idx, kind, id, ord)
 	case 1:
@@ -402,12 +408,30 @@ func (h *hh) body(kind, id, ord int, ctx context.Context, startKind, endKind int
 		return x.errOf(kind, id, ord)
 	case progen.Panic:
 		x.count(&x.panicFired)
-		panic(x.panicVal(kind, id, ord))
+		throw(x.panicVal(kind, id, ord))
 	case progen.Goexit:
 		x.count(&x.goexitFired)
 		runtime.Goexit()
 	}
 	return nil
+}
+
+// throw panics with v; the runtimePanic marker becomes a real runtime error.
+func throw(v any) {
+	if _, ok := v.(runtimePanic); ok {
+		var m map[int]int
+		m[1] = 1 // panics: assignment to entry in nil map
+	}
+	panic(v)
+}
+
+// panicEq reports whether a recovered value is the one the harness injected.
+func panicEq(got, want any) bool {
+	if _, ok := want.(runtimePanic); ok {
+		re, isRE := got.(runtime.Error)
+		return isRE && strings.Contains(re.Error(), "nil map")
+	}
+	return safeEq(got, want)
 }
 
 func (x *execRun) limit() int {
@@ -477,7 +501,7 @@ func (h *hh) Pred(id int, ctx context.Context, in ...uint64) bool {
 		return false
 	case progen.PredPanic:
 		x.count(&x.predPanic)
-		panic(x.panicVal(3, id, 0))
+		throw(x.panicVal(3, id, 0))
 	}
 	return true
 }
@@ -514,7 +538,7 @@ func (h *hh) Elem(id int, ctx context.Context, a int64, b uint64) error {
 		return x.errOf(1, id, ord)
 	case progen.Panic:
 		x.count(&x.panicFired)
-		panic(x.panicVal(1, id, ord))
+		throw(x.panicVal(1, id, ord))
 	}
 	return nil
 }
